@@ -26,6 +26,7 @@ def run(ck, fb):
     r03e(ck, fb)
     r03f(ck, fb)
     r03g(ck, fb)
+    r03j(ck, fb)
     ck.borrow('rules.c02', {'R02a': 'R03h'}, 'the index-area rewind of strip_log_to sizes what write() stored')
 
 
@@ -355,3 +356,35 @@ def r03g(ck, fb):
                    'a record is consumed before the requested count was looked at: with count == 0 (truncation exactly at the start of an index '
                    'segment, or at the first entry of the file) the counter is already 1 at the first comparison, never equals 0, and the scan runs '
                    'to the end of the data - strip_log_to keeps every entry it was asked to remove', 'requested count tested first')
+
+
+def r03j(ck, fb):
+    ck.rule('R03j', 'files behind the cut are dropped from the END of the list: in RaftLogManager::strip_log_to_index the number of files kept is '
+                    'len() - pop_count (the bound of the slice / truncate that shrinks `logs` is computed by that subtraction), never pop_count itself: '
+                    'with three files and a cut in the second, keeping `pop_count` files keeps only the oldest one')
+    b = ck.body(LM + 'strip_log_to_index', 'R03j')
+    if not b:
+        return
+    tl = Taint(b, call_src=lambda t: (t.get('f') or {}).get('d', '') == 'std::vec::Vec::<T, A>::len')
+    subs = [st for (i, j, st) in b.stmts() if st.get('rv', {}).get('k') == 'bin' and st['rv']['op'] in ('Sub', 'SubWithOverflow')
+            and tl.op_tainted(st['rv']['a']) and isinstance(st.get('d'), int)]
+    if not ck.require(len(subs) >= 1, 'R03j', 'strip_log_to_index:kept=len-pop', b.where(),
+                      'no subtraction len() - pop_count is computed: the number of files to keep is not derived from the list length'):
+        return
+    tk = Taint(b, local_src=[st['d'] for st in subs])
+    n = 0
+    ok = True
+    for s0 in b.calls(r'Vec::<T, A>::(truncate|drain|split_off)$'):
+        if util.recv_fields(b, s0)[-1:] == ['logs']:
+            n += 1
+            if not any(tk.op_tainted(a) for a in s0.args[1:]):
+                ok = False
+    for (i, j, st) in b.stmts():
+        rv = st.get('rv')
+        if rv and rv['k'] == 'agg' and 'Range' in str(rv.get('adt') or rv.get('def') or ''):
+            n += 1
+            if not any(tk.op_tainted(o) for o in rv['ops']):
+                ok = False
+    ck.floor('R03j', 'shrink bounds in strip_log_to_index', n, 1)
+    ck.require(ok, 'R03j', 'strip_log_to_index:bound-is-kept-count', b.where(),
+               'the list of log files is shrunk with a bound that is not len() - pop_count: the wrong files are kept')
